@@ -94,8 +94,14 @@ def referenced(doc):
 def list_edit(r, lst, make, removable=lambda o: True, again=None):
     """one positional edit of a python list; returns description or None.
     again: a predicate for elements that may be listed a second time (the same transform applied again, the same instance placed twice)"""
-    k = r.choice(['append', 'insert', 'insert0', 'remove', 'remove2', 'pop', 'swap', 'reverse', 'setitem', 'delslice'] + (['again'] if again else []))
+    k = r.choice(['append', 'insert', 'insert0', 'remove', 'remove2', 'pop', 'swap', 'reverse', 'setitem', 'delslice', 'clear'] + (['again'] if again else []))
     n = len(lst)
+    if k == 'clear':
+        # everything goes (when nothing in the list is referred to from elsewhere)
+        if not n or not all(removable(o) for o in lst):
+            return None
+        del lst[:]
+        return k
     if k == 'again':
         c = [o for o in lst if again(o)]
         if not c:
